@@ -68,6 +68,9 @@ func Verify(blob []byte, params VerifyParams) (*VerifiedBlob, error) {
 		}
 	}
 	// verify CMS signature against the first code dir
+	if len(sig.Directories) == 0 {
+		return nil, errors.New("code directory not found in signature")
+	}
 	mdContent := sig.Directories[0].Raw
 	if sig.CMS == nil {
 		return nil, errors.New("signature wrapper not found, possibly an adhoc signature")
